@@ -92,6 +92,14 @@ CLAIMS.update({
    ref="DESIGN.md section 4 C12"),
 })
 
+CLAIMS.update({
+ "C08": dict(
+   technique="qualifier (id-kind) inference over clang AST with declared getter/field kinds; must-pass-through on the structured CFG; phase-order analysis of run_iteration; literal-vs-validation table",
+   text="Decides in all six configurations: no comparison, subscript, map key, coupling record or id/index setter mixes persistent cell ids, list indices, node/face indices, global face ids and face-type indices (one reasoned allow-list entry); every population change in run_iteration / cell_divider::run is followed on every path by the renumbering loop; cell ids come only from the post-incremented counter; coupling readers run after the contact model's reset of the same iteration with no population change in between; literal face-type indices used by live code of a cell class are covered by the start-up validation for that class; faces get owner_cell_ = shared_from_this() when adopted or created.",
+   note="Liveness of the designated node at use time over arbitrary histories (e.g. a coupled node deleted by remeshing between contact phase and integrator) is not decided. Kinds are declared in a table in the checker.",
+   ref="DESIGN.md section 4 C08, section 3 E4"),
+})
+
 NA_DEFAULT = "checker not finished yet (see DESIGN.md section 4 for the planned clauses)"
 NA = {}
 
